@@ -412,6 +412,10 @@ fn main() {
         let mut texts: Vec<String> = vec![lines[li].clone()];
         for s in &second {
             texts.push(format!("{}\n{}", lines[li], s));
+            // runs of line breaks: CRLF, a blank line, a bare carriage return before the break
+            texts.push(format!("{}\r\n{}", lines[li], s));
+            texts.push(format!("{}\n\n{}", lines[li], s));
+            texts.push(format!("{}\n\r{}", lines[li], s));
         }
         for (ti, text) in texts.iter().enumerate() {
             if text.is_empty() {
